@@ -2039,6 +2039,297 @@ def sc_align_dims(P):
     return out
 
 
+def sc_get_indices(P):
+    """AbstractHasAxes._get_indices(indices, axis, indexing, tol, keepdims): every documented spelling of an index (scalar, list, mask, slice, tuple with Ellipsis,
+    {dimension: index}, (index, axis=), an Axes object) normalised to one positional index per dimension; labels looked up on the axis of the *named* dimension, with the
+    tolerance handed on; masks and full slices never looked up; positions taken as they are under indexing='position'"""
+    out = []
+    dims, sizes = ('x', 'y', 'z'), (3, 4, 5)
+    # (an argument handed to Axis.loc at its declared default says nothing)
+    import ast as _ast
+    loc_defaults = {}
+    floc = P.functions.get('dimarray.core.bases.AbstractAxis.loc')
+    if floc is not None:
+        pos = floc.node.args.args
+        for arg, d in list(zip(pos[len(pos) - len(floc.node.args.defaults):], floc.node.args.defaults)) + \
+                [(a_, d_) for a_, d_ in zip(floc.node.args.kwonlyargs, floc.node.args.kw_defaults) if d_ is not None]:
+            if isinstance(d, _ast.Constant):
+                loc_defaults[arg.arg] = d.value
+
+    def target(indexing=None, tol=None):
+        axes = [mk_axis(d, n) for d, n in zip(dims, sizes)]
+        for ax in axes:
+            def loc(itp, o, a, k):
+                lix = a[0] if a else k.get('val')
+                rest = dict((kk, vv) for kk, vv in k.items() if kk != 'val')
+                if len(a) > 1:
+                    rest['tol'] = a[1]
+                rest = dict((kk, vv) for kk, vv in rest.items() if kk not in loc_defaults or render(loc_defaults[kk]) != render(vv))
+                if isinstance(lix, (int, float, str, bool)) and not isinstance(lix, (Obj, Sym)):
+                    # a scalar label gives a scalar position (np.isscalar is true of it)
+                    return 'pos[%s](%s%s)' % (o.attrs['name'], render(lix), ''.join(', %s=%s' % (kk, render(vv)) for kk, vv in sorted(rest.items()) if vv is not None))
+                return Sym('call', 'positions[%s]' % o.attrs['name'], (plain(lix),), dict((kk, vv) for kk, vv in rest.items() if vv is not None))
+            ax.methods['loc'] = loc
+        arr = mk_array(P, 'A', None, None, axes=axes, overrides=ov())
+        arr.attrs['_indexing'] = indexing
+        arr.attrs['_tol'] = tol
+        return arr
+
+    def ov():
+        o = std_overrides(P)
+        o['get_option'] = lambda itp, a, k: {'indexing.by': 'label'}.get(a[0], Sym('call', 'get_option', tuple(a), {}))
+        np_ = o['np']
+        base_asarray = np_.methods['asarray']
+
+        def asarray(itp, o_, a, k):
+            x = a[0]
+            if isinstance(x, (list, tuple)) and not has_abstract_deep(x) and len(a) == 1 and not k and not any(isinstance(y, (list, tuple)) for y in x):
+                return conc(list(x))
+            if (x is None or (isinstance(x, (int, float, str, bool)) and not isinstance(x, (Obj, Sym)))) and len(a) == 1 and not k:
+                return conc(x, 'O' if x is None else _kind_of([x]), ())                  # a 0-d array
+            return base_asarray(itp, o_, a, k)
+        np_.methods['asarray'] = asarray
+        o['numpy'] = np_
+        return o
+
+    def plain(x):
+        # a list of labels or positions and the array made of it address the same cells
+        if isinstance(x, Obj) and '_data' in x.attrs and x.attrs['dtype'].attrs['kind'] != 'b':
+            return x.attrs['_data']
+        return list(x) if isinstance(x, tuple) else x
+
+    def post(itp, r):
+        if isinstance(r, Obj) and 'iter' in r.hooks:
+            r = itp.iterate(r)
+        return render([plain(x) for x in r]) if isinstance(r, (list, tuple)) else render(r)
+
+    def case(label, args, kw=None, **tk):
+        out.append((label, lambda: ([target(**tk)] + list(args), dict(kw or {}), {'overrides': ov(), 'post': post})))
+
+    mask = lambda: conc([True, False, True], 'b')
+    case('scalar label', [20])
+    case('list of labels', [[30, 10]])
+    case('empty list', [[]])
+    case('tuple of labels: one per dimension', [(20, 'b')])
+    case('full tuple', [(20, 'b', 7)])
+    case('too many indices', [(1, 2, 3, 4)])
+    case('full slice', [slice(None)])
+    case('label slice', [slice(10, 20)])
+    case('mask on the first dimension', [mask()])
+    case('mask in a tuple', [(20, mask())])
+    case('Ellipsis then a label', [(Ellipsis, 7)])
+    case('label, Ellipsis, label', [(20, Ellipsis, 7)])
+    case('None: everything', [None])
+    case('{name: index}', [{'y': 'b'}])
+    case('{name: index} for two dimensions, in another order', [{'z': 7, 'x': [10, 20]}])
+    case('{position: index}', [{1: 'b'}])
+    case('{negative position: index}', [{-1: 7}])
+    case('{unknown name: index}', [{'w': 1}])
+    case('index, axis=name', [[30, 10]], {'axis': 'y'})
+    case('index, axis=position', [20], {'axis': 2})
+    case('index, axis=0', [20], {'axis': 0})
+    case('index, axis=None', [20], {'axis': None})
+    case('scalar label with tolerance', [20.2], {'tol': 0.5})
+    case('list of labels with tolerance', [[20.2, 9.9]], {'tol': 0.5})
+    case("tolerance of the array (its _tol)", [20.2], None, tol=0.25)
+    case("tolerance argument over the array's own", [20.2], {'tol': 0.5}, tol=0.25)
+    case('scalar position', [1], {'indexing': 'position'})
+    case('list of positions', [[2, 0]], {'indexing': 'position'})
+    case('position slice', [slice(0, 2)], {'indexing': 'position'})
+    case('tuple of positions with Ellipsis', [(1, Ellipsis, [0, 1])], {'indexing': 'position'})
+    case('{name: position}', [{'z': 2}], {'indexing': 'position'})
+    case('mask under position indexing', [(slice(None), mask())], {'indexing': 'position'})
+    case("array's own indexing mode is position", [(1, [0, 2])], None, indexing='position')
+    case("indexing argument over the array's own mode", [(20, 'b')], {'indexing': 'label'}, indexing='position')
+    case('scalar label, keepdims', [20], {'keepdims': True})
+    case('tuple with a list, keepdims', [(20, ['a', 'b'])], {'keepdims': True})
+    case('scalar position, keepdims', [(1, 2)], {'indexing': 'position', 'keepdims': True})
+    case('full slice, keepdims', [slice(None)], {'keepdims': True})
+    return out
+
+
+def sc_item_dispatch(P, which):
+    """AbstractDimArray._getitem / _setitem: which worker pair serves an index.  The index is resolved once by _get_indices with the caller's axis / indexing / tol (/ keepdims)
+    handed on; a full N-d boolean mask goes to compress / _setvalues_bool; the orthogonal workers serve unless broadcast is asked for by the argument, else by the array's
+    own flag, else by the global option; a read gives a scalar as it is and otherwise the constructor's array with the metadata of the source; a write with inplace=False
+    goes to a copy that is returned and leaves the receiver alone."""
+    def gen(P):
+        out = []
+
+        def target(own=None, option=False):
+            arr = mk_array(P, 'A', ('x', 'y'), (3, 4), overrides=ov(option))
+            log = arr.attrs['_log'] = []
+            arr.attrs['_broadcast'] = own
+            arr.attrs['attrs'] = {'units': 'u'}
+
+            def rec(name, ret=None):
+                def m(itp, o, a, k):
+                    # (positional or by keyword, the same cells / values / cast flag)
+                    kw = dict(zip(['mask' if name == '_setvalues_bool' else 'idx_tuple', 'values', 'cast'], a))
+                    kw.update(k)
+                    kw.setdefault('cast', False)
+                    o.attrs['_log'].append('%s(%s)' % (name, ', '.join('%s=%s' % (kk, render(vv)) for kk, vv in sorted(kw.items()))))
+                    return ret(o, a, k) if ret else None
+                return m
+
+            def get_indices(itp, o, a, k):
+                # (arguments at the declared defaults say nothing)
+                names = ['indices', 'axis', 'indexing', 'tol', 'keepdims']
+                defaults = {'axis': 0, 'indexing': None, 'tol': None, 'keepdims': False}
+                kw = dict(zip(names, a))
+                kw.update(k)
+                kw = dict((kk, vv) for kk, vv in kw.items() if kk not in defaults or render(defaults[kk]) != render(vv))
+                if kw.get('indices', ()) is None:
+                    kw['indices'] = ()                   # (None is what _get_indices itself reads as "everything")
+                return Sym('call', 'IDX', (), kw)
+            arr.methods['_get_indices'] = get_indices
+            arr.methods['_getaxes_ortho'] = lambda itp, o, a, k: [Sym('call', 'AXES_ORTHO', tuple(a), dict(k))]
+            arr.methods['_getaxes_broadcast'] = lambda itp, o, a, k: [Sym('call', 'AXES_BROADCAST', tuple(a), dict(k))]
+            arr.methods['_getvalues_ortho'] = lambda itp, o, a, k: Sym('call', 'VALUES_ORTHO', tuple(a), dict(k))
+            arr.methods['_getvalues_broadcast'] = lambda itp, o, a, k: Sym('call', 'VALUES_BROADCAST', tuple(a), dict(k))
+            arr.methods['compress'] = lambda itp, o, a, k: Sym('call', 'COMPRESS', tuple(a), dict(k))
+            for nm in ('_setvalues_ortho', '_setvalues_broadcast', '_setvalues_bool'):
+                arr.methods[nm] = rec(nm)
+            def constructor(itp, o, a, k):
+                kw = dict(zip(['values', 'axes'], a))
+                kw.update(k)
+                meta = dict((kk, vv) for kk, vv in kw.items() if kk not in ('values', 'axes'))
+                if len(a) > 2:
+                    meta['<positional>'] = list(a[2:])
+                return Obj('NEW', types=('DimArray',), attrs={'args': (kw.get('values'), kw.get('axes')), 'attrs': meta})
+            arr.methods['_constructor'] = constructor
+
+            def copy(itp, o, a, k):
+                # a copy: another array with the content of its source at that moment (the writes received so far included)
+                c = target(own, option)
+                c.name = 'COPY'
+                c.attrs['_log'] = list(o.attrs['_log'])
+                return c
+            arr.methods['copy'] = copy
+            return arr
+
+        def ov(option):
+            o = std_overrides(P)
+            o['get_option'] = lambda itp, a, k: {'indexing.broadcast': option, 'indexing.by': 'label'}.get(a[0], Sym('call', 'get_option', tuple(a), {}))
+            o['warnings'] = Obj('warnings', attrs={})
+            o['warnings'].hooks['open'] = True
+            o['warnings'].methods['warn'] = lambda itp, o_, a, k: None
+            o['FutureWarning'] = lambda itp, a, k: tok('FutureWarning')
+            return o
+
+        def post(itp, r, arr=None):
+            def show(x):
+                if isinstance(x, Obj) and x.name == 'NEW':
+                    return 'NEW(%s; attrs=%s)' % (render(x.attrs['args']), render(x.attrs['attrs']))
+                if isinstance(x, Obj) and x.name == 'A':
+                    return 'the receiver'
+                if isinstance(x, Obj) and x.name == 'COPY':
+                    return 'a copy with the writes %s' % (x.attrs['_log'],)
+                return render(x)
+            return 'returns %s; writes into the receiver %s' % (show(r), arr.attrs['_log'])
+
+        def case(label, args, kw=None, **tk):
+            def mk():
+                arr = target(**tk)
+                return [arr] + list(args), dict(kw or {}), {'overrides': ov(tk.get('option', False)), 'post': lambda itp, r: post(itp, r, arr)}
+            out.append((label, mk))
+
+        nd_mask = lambda: conc([[True, False], [False, True]], 'b')
+        mask1 = lambda: conc([True, False, True], 'b')
+        extra = [] if which == '_getitem' else [tok('NEWVALUES')]
+        IDX = (20, ['a', 'b'])
+        case('defaults', [IDX] + extra)
+        case('array flag: broadcast', [IDX] + extra, None, own=True)
+        case('array flag: orthogonal, option: broadcast', [IDX] + extra, None, own=False, option=True)
+        case('no array flag, option: broadcast', [IDX] + extra, None, option=True)
+        case('broadcast=True', [IDX] + extra, {'broadcast': True})
+        case('broadcast=False over the array flag', [IDX] + extra, {'broadcast': False}, own=True)
+        case('broadcast=False over the option', [IDX] + extra, {'broadcast': False}, option=True)
+        case('axis, indexing and tol handed on', [IDX] + extra, {'axis': 'y', 'indexing': 'position', 'tol': 0.5})
+        case('full N-d boolean mask', [nd_mask()] + extra)
+        case('full N-d boolean mask, broadcast=True', [nd_mask()] + extra, {'broadcast': True})
+        case('1-d boolean mask is an ordinary index', [mask1()] + extra)
+        case('nested list of numbers is an ordinary index', [conc([[1, 0], [0, 1]], 'i')] + extra)
+        if which == '_getitem':
+            case('keepdims handed on', [IDX], {'keepdims': True})
+            case('deprecated broadcast_arrays=True', [IDX], {'broadcast_arrays': True})
+            case('no index', [None])
+
+            def scalar_case():
+                arr = target()
+                arr.methods['_getvalues_ortho'] = lambda itp, o, a, k: 3.5
+                return [arr, IDX], {}, {'overrides': ov(False), 'post': lambda itp, r: post(itp, r, arr)}
+            out.append(('scalar values are returned as they are', scalar_case))
+        else:
+            case('cast handed on', [IDX] + extra, {'cast': True})
+            case('cast handed on, broadcast', [IDX] + extra, {'cast': True, 'broadcast': True})
+            case('cast handed on, N-d mask', [nd_mask()] + extra, {'cast': True})
+            case('inplace=False', [IDX] + extra, {'inplace': False})
+            case('inplace=False, broadcast', [IDX] + extra, {'inplace': False, 'broadcast': True})
+            case('inplace=False, N-d mask', [nd_mask()] + extra, {'inplace': False})
+            case('inplace=False, array flag: broadcast', [IDX] + extra, {'inplace': False}, own=True)
+        return out
+    return gen
+
+
+def sc_getaxes_ortho(P):
+    """_getaxes_ortho(idx_tuple): the i-th index samples the i-th axis; scalar-indexed axes are dropped, all the others kept in their order"""
+    out = []
+
+    def target():
+        axes = [mk_axis('x', 3, [10, 20, 30]), mk_axis('y', 2, ['a', 'b']), mk_axis('z', 4, [1.5, 2.5, 3.5, 4.5])]
+        return mk_array(P, 'A', None, None, axes=axes, overrides=std_overrides(P))
+
+    def post(itp, r):
+        if isinstance(r, Obj) and 'iter' in r.hooks:
+            r = itp.iterate(r)
+        return render(list(r)) if isinstance(r, (list, tuple)) else render(r)
+
+    def case(label, idx):
+        out.append((label, lambda: ([target(), idx], {}, {'overrides': std_overrides(P), 'post': post})))
+    full = slice(None)
+    case('all full slices', (full, full, full))
+    case('scalar on the first dimension', (1, full, full))
+    case('scalar on the middle dimension', (full, 0, full))
+    case('scalar on the last dimension', (full, full, 3))
+    case('scalars on two dimensions', (2, full, 0))
+    case('scalars everywhere', (0, 1, 2))
+    case('slice and list', (slice(0, 2), [1, 0], full))
+    case('list on the first, scalar on the second', ([2, 0], 1, full))
+    case('singleton list keeps its dimension', ([1], [0], [2]))
+    return out
+
+
+def sc_locate_slice_strict(P):
+    """_locate_slice_strict(values, start, stop, step): both bounds are exact first matches; the stop label belongs to the selection (one past it in the direction of the
+    step); omitted bounds stay None; a negative step down to the first element ends with None, not with -1 (which would wrap around); an absent label is refused"""
+    out = []
+    where = {'a': 0, 'b': 1, 'c': 2, 'd': 3, 'e': 4}
+
+    def ov():
+        o = std_overrides(P)
+
+        def locate_one(itp, a, k):
+            kw = dict(zip(['values', 'val', 'issorted', 'tol', 'side'], a))
+            kw.update(k)
+            if kw.get('tol') is not None or kw.get('side', 'left') != 'left' or render(kw.get('values')) != 'VALUES':
+                return Sym('call', 'locate_one', tuple(a), dict(k))          # not an exact first match on the axis: left as it is written
+            if kw.get('val') not in where:
+                raise Raised('IndexError')
+            return where[kw['val']]
+        o['locate_one'] = locate_one
+        return o
+
+    for step in (None, 1, 2, -1, -2):
+        for start in (None, 'a', 'c', 'e'):
+            for stop in (None, 'a', 'b', 'c', 'd', 'e'):
+                out.append(('start %r, stop %r, step %r' % (start, stop, step), lambda start=start, stop=stop, step=step: ([tok('VALUES'), start, stop, step], {}, {'overrides': ov()})))
+    out.append(('absent start label', lambda: ([tok('VALUES'), 'q', 'c', None], {}, {'overrides': ov()})))
+    out.append(('absent stop label', lambda: ([tok('VALUES'), 'a', 'q', None], {}, {'overrides': ov()})))
+    out.append(('absent stop label, negative step', lambda: ([tok('VALUES'), None, 'q', -1], {}, {'overrides': ov()})))
+    return out
+
+
 def sc_axes_from(P):
     """Axes.from_shape / from_arrays / from_dict called directly"""
     out = []
@@ -2046,6 +2337,11 @@ def sc_axes_from(P):
 
 
 SCENARIOS = {
+    'dimarray.core.bases.AbstractHasAxes._get_indices': (('C01', 'C02', 'C03'), sc_get_indices),
+    'dimarray.core.bases.AbstractDimArray._getitem': (('C01', 'C02'), sc_item_dispatch(None, '_getitem')),
+    'dimarray.core.bases.AbstractDimArray._setitem': (('C03',), sc_item_dispatch(None, '_setitem')),
+    'dimarray.core.bases.AbstractHasAxes._getaxes_ortho': (('C01', 'C02'), sc_getaxes_ortho),
+    'dimarray.core.indexing._locate_slice_strict': (('C02',), sc_locate_slice_strict),
     'dimarray.core.axes._init_axes': (('C05',), sc_init_axes),
     'dimarray.tools.is_array1d_equiv': (('C05',), sc_array1d_equiv),
     'dimarray.core.dimarraycls.DimArray.from_nested': (('C05',), sc_from_nested),
